@@ -94,6 +94,9 @@ func (sim) Generate(prop, tier string, seed uint64) *core.Plan {
 	p.Cfg["maturity"] = []int64{1, 2, 3, 5, 100}[r.Intn(5)]
 	p.Cfg["prechain"] = int64(r.Range(1, 6))
 	p.Cfg["queue_buf"] = []int64{0, 1, 5, 20}[r.Intn(4)]
+	if tier == "thorough" {
+		p.Cfg["thorough"] = 1 // longer histories per run
+	}
 	switch prop {
 	case "C09":
 		genC09(r, p)
@@ -116,6 +119,9 @@ func genC09(r *core.Rand, p *core.Plan) {
 	}
 	ntasks := r.Range(2, 4)
 	sections := r.Range(1, 3)
+	if p.Cfg["thorough"] == 1 {
+		sections = r.Range(2, 5)
+	}
 	// a few sequential warm-up calls
 	for i := 0; i < r.Intn(3); i++ {
 		p.Ops = append(p.Ops, core.Op{K: "newaddr", A: []int64{int64(r.Intn(4)), 0, int64(r.Intn(2))}})
@@ -160,6 +166,9 @@ func genC09(r *core.Rand, p *core.Plan) {
 func genC15(r *core.Rand, p *core.Plan) {
 	p.Sched = []string{"rtb0", "rtb1", "random", "rtb3"}[r.Intn(4)]
 	n := r.Range(6, 30)
+	if p.Cfg["thorough"] == 1 {
+		n = r.Range(20, 70)
+	}
 	p.Ops = append(p.Ops, core.Op{K: "newaddr", A: []int64{int64(r.Intn(4)), 0, 0}})
 	p.Ops = append(p.Ops, core.Op{K: "newaddr", A: []int64{int64(r.Intn(4)), 0, 0}})
 	maxDepth := r.Range(1, 8)
